@@ -211,4 +211,54 @@ def step (st : St) (line : String) : St × String :=
     | _, _ => (st, "bad-op")
   | _ => (st, "bad-op")
 
-def main : IO Unit := runState ({} : St) step
+/-! several objects in one process: `objseq <op> <op> …` with ops
+   new:<name|->   set:<k>:<keyhex>=<pyval>   copy:<k>   load:<k>:<name>   reset:<k>
+   -> per op `<ok|err E>#<dump of object 0>|<dump of object 1>|…`, `;`-separated -/
+def runObjOp (st : St) (h : Heap) (op : String) : Option (Heap × String) :=
+  match op.splitOn ":" with
+  | ["new", name] =>
+    match construct st name with
+    | some (s, Option.none) => some ((h.new s).1, "ok")
+    | some (_, some e) => some (h, "err " ++ e.name)
+    | Option.none => Option.none
+  | ["set", k, asg] => do
+    let k ← k.toNat?
+    let (key, v) ← parseAssign asg
+    match h.setitem k key v with
+    | .ok h' => pure (h', "ok")
+    | .error e => pure (h, "err " ++ e.name)
+  | ["copy", k] => do
+    let k ← k.toNat?
+    pure ((h.copy k).1, "ok")
+  | ["load", k, name] => do
+    let k ← k.toNat?
+    let lines ← st.cfg name
+    match Settings.loadLines (h.get k) lines with
+    | (s, Option.none) => pure (h.set k s, "ok")
+    | (s, some e) => pure (h.set k s, "err " ++ e.name)
+  | ["reset", k] => do
+    let k ← k.toNat?
+    let lines ← st.cfg "default"
+    match Settings.loadLines (h.get k) lines with
+    | (s, Option.none) => pure (h.set k s, "ok")
+    | (s, some e) => pure (h.set k s, "err " ++ e.name)
+  | _ => Option.none
+
+def runObjSeq (st : St) (ops : List String) : String :=
+  let r := ops.foldl (fun (acc : Option (Heap × List String)) op =>
+    match acc with
+    | Option.none => Option.none
+    | some (h, outs) =>
+      match runObjOp st h op with
+      | some (h', status) => some (h', outs ++ [status ++ "#" ++ "|".intercalate (h'.map dump)])
+      | Option.none => Option.none) (some ([], []))
+  match r with
+  | some (_, outs) => ";".intercalate outs
+  | Option.none => "bad-op"
+
+def step2 (st : St) (line : String) : St × String :=
+  match words line with
+  | "objseq" :: ops => (st, runObjSeq st ops)
+  | _ => step st line
+
+def main : IO Unit := runState ({} : St) step2
